@@ -311,6 +311,8 @@ class TBRiROAS():
     tail_probability = (1 - level) / tails
 
     metric_data = metric_df.analysis_data.copy().reset_index()
+    # Time points outside of the pre-test, test and cooldown periods are unused.
+    metric_data = metric_data.loc[metric_data['period'].isin(periods)]
 
     dates = metric_data.loc[metric_data['period'].isin(periods),
                             'date'].unique()
